@@ -192,6 +192,14 @@ Queryable(d) == d.ok => /\ Len(d.subs) >= 1
                               /\ Len(g.nodes) = g.rows /\ \A r \in 1..g.rows : Len(g.nodes[r]) = g.cols
                         /\ TreeOK(d.subs)
 
+\* The admissible outcomes of decoding + querying a damaged file, and the named deviations
+\* (outcomes the code is known to produce instead; see bin/suites/C15.py for the message
+\* patterns that identify them).  Every deviation is a panic or a hang: none is admissible.
+Admissible == {"err", "ok_safe"}
+Deviations == {"DEV_ntv2_short_buffer_indexing", "DEV_ntv2_no_none_root", "DEV_ntv2_count_overflow",
+               "DEV_ntv2_parent_cycle_hang", "DEV_one_row_or_column_grid", "DEV_nonfinite_bounds",
+               "DEV_gravsoft_zero_rows_division", "DEV_gravsoft_count_overflow"}
+
 \* ---- faults -------------------------------------------------------------------------
 \* [t, a, b, c]:  "trunc" a = number of bytes kept
 \*                "flip"  a = byte offset, b = bit
